@@ -2,6 +2,7 @@ import PortusModel.Driver.Wire
 import PortusModel.Driver.Orc
 import PortusModel.Driver.Bkd
 import PortusModel.Driver.Ctl
+import PortusModel.Driver.Lang
 /-! `pmodel`: the line-protocol driver around the model's executable definitions. -/
 open Portus.Driver
 
@@ -12,6 +13,8 @@ def dispatch (cmd : String) (args : List String) : String :=
   | "ENC" => ((encDp args).orElse fun _ => encCtl args).getD "BADARG"
   | "RT" => rt args
   | "BKD" => bkd args
+  | "CMP" => cmp args
+  | "AST" => ast args
   | "ORC" => (match args with
     | "C04" :: rest => orcC04 rest
     | "C07" :: rest => orcC07 rest
